@@ -40,8 +40,9 @@ def run(ctx, monitors):
             # occurs with and without final group / key share
             strata = {}
             for v in values:
-                strata.setdefault((v["status"], v["fgroup"], v["share"]), []).append(v)
-            values = []
+                if v.get("addr", "host") == "host":
+                    strata.setdefault((v["status"], v["fgroup"], v["share"]), []).append(v)
+            values = [v for v in values if v.get("addr", "host") != "host"]      # every other address kind always
             for k in sorted(strata):
                 values += rng.sample(strata[k], 12)
         counts[t] = len(values)
